@@ -4,6 +4,7 @@ import (
 	"context"
 	"fmt"
 	"net/url"
+	"sync"
 
 	protocol "github.com/longportapp/openapi-protocol/go"
 )
@@ -38,15 +39,25 @@ type ClientConn interface {
 }
 
 type closeCallback struct {
+	// mu: OnClose is called by the client after the dialer returned, when the
+	// conn's goroutines may already be closing it
+	mu        sync.Mutex
 	callbacks []func(error)
 }
 
 func (c *closeCallback) OnClose(cb func(error)) {
+	c.mu.Lock()
 	c.callbacks = append(c.callbacks, cb)
+	c.mu.Unlock()
 }
 
 func (c *closeCallback) DispatchClose(err error) {
-	for _, cb := range c.callbacks {
+	c.mu.Lock()
+	cbs := make([]func(error), len(c.callbacks))
+	copy(cbs, c.callbacks)
+	c.mu.Unlock()
+
+	for _, cb := range cbs {
 		cb(err)
 	}
 }
